@@ -276,6 +276,15 @@ def run (md5 : List Nat → List Nat) (cfg : BmcCfg) : BmcState → List (List N
   | st, [] => st
   | st, d :: ds => run md5 cfg (step md5 cfg st d).1 ds
 
+/-- the verdicts of the monitor on a list of datagrams, one per datagram -/
+def verdicts (md5 : List Nat → List Nat) (cfg : BmcCfg) : BmcState → List (List Nat) → List Verdict
+  | _, [] => []
+  | st, d :: ds => (step md5 cfg st d).2 :: verdicts md5 cfg (step md5 cfg st d).1 ds
+
+def Verdict.isReply : Verdict → Bool
+  | .reply _ => true
+  | .protocolError _ => false
+
 /-! ### authentication-type strength (IPMI: MD5 > MD2 > straight password > none; OEM is not comparable
 and never preferred over a standard type here) -/
 
